@@ -73,7 +73,9 @@ Definition group_for (names : list string) : option group :=
 Definition lookup (r : mesh) (d : nat) (a : string) (i j : nat) : option N :=
   do rows <- get_attr d a (m_attrs r); do row <- nth_error rows i; nth_error row j.
 Definition read_component (o : wopts) (m : wmesh) (r : mesh) (x : wattr) (i j : nat) : option N * sty :=
-  if is_attr 2 "TexCoord" x && match w_topo m with TTriangle => true | TPoint => false end && negb (claimed (o_writers o) 2 "TexCoord")
+  (* texture coordinates no writer names come back as the TexCoord attribute (face element of a triangle mesh;
+     a repaired writer may also emit them per vertex as s/t) *)
+  if is_attr 2 "TexCoord" x && negb (claimed (o_writers o) 2 "TexCoord")
   then (lookup r 2 "TexCoord" i j, Float) else
   match first_writer o x with
   | Some w =>
